@@ -8,6 +8,9 @@ import (
 	"github.com/reeflective/readline/internal/color"
 )
 
+// maxIterations is the largest numeric argument a command is given.
+const maxIterations = 1000000
+
 // Iterations manages iterations for commands.
 type Iterations struct {
 	times   string // Stores iteration value
@@ -59,6 +62,14 @@ func (i *Iterations) Get() int {
 	// At least one iteration
 	if times == 0 {
 		times++
+	}
+
+	// And, like in GNU readline, at most a million: a larger argument (or one
+	// too large to be read as a number) would keep a command busy for ever.
+	if times > maxIterations {
+		times = maxIterations
+	} else if times < -maxIterations {
+		times = -maxIterations
 	}
 
 	i.times = ""
